@@ -42,6 +42,18 @@ def run(ctx):
     del res, edges
     ctx.drive(drv, ["-mode", "edges", "-in", bp, "-pad", 0, "-nib", "0,1,15", "-keylen", 2], name="c06-batch-edges", timeout=T)
     del bedges
+    if ctx.thorough:
+        # the same batch edges under the race detector (workers of UpdateBatch share the tracers and the root)
+        import glob
+        rdrv = ctx.build("c06", race=True)
+        rlog = os.path.join(ctx.scratch, "race")
+        ctx.drive(rdrv, ["-mode", "edges", "-in", bp, "-pad", 0, "-nib", "0,1,15", "-keylen", 2], name="c06-batch-edges-race", timeout=T * 2,
+                  env={"GORACE": "halt_on_error=0 exitcode=0 log_path=" + rlog})
+        reports = glob.glob(rlog + ".*")
+        if reports:
+            ctx.violation("data race reported by the Go race detector while replaying UpdateBatch edges",
+                          {"kind": "race", "driver": "c06-batch-edges-race", "seed": ctx.seed, "tier": ctx.tier,
+                           "report_head": open(reports[0]).read()[:3000]})
     # R: simulated behaviours with batches above/below the threshold, 2-byte and 32-byte keys
     for cfg, pad, nib, num, depth in ctx.pick([("trie/MCTrieSim", 1, "0,1,15", 25, 160)],
                                               [("trie/MCTrieSim", 1, "0,1,15", 300, 160), ("trie/MCTrieSimThorough", 61, "0,1,2,15", 200, 260)]):
